@@ -12,9 +12,11 @@
 
       emitField t sn tag  =  the schema expression written for  `F <t> \`gozod:"<tag>"\``  in `type <sn> struct`
 
-  Round 4b: the transcription is parameterised by `WriterFacts` — structure facts read from writer.go with go/ast on
-  every run (`Gozod.Gen.writerFacts`, harness/cmd/c13/facts.go): which variant of each decision the writer contains
-  (the pinned one, or the one of a `pending/C13-*.diff`).  `WriterFacts.legacy` is the tree of round 4.
+  Round 4b/4c: the transcription carries a `WriterFacts` parameter — one Boolean per decision of the writer that had a
+  second variant. Since round 4c it is PINNED: everything executed and every property theorem uses `WriterFacts.head`
+  (the writer of /repo HEAD, all twelve fixes landed); `WriterFacts.legacy` (the writer of round 4) survives in witness
+  theorems only. harness/cmd/c13/facts.go still reads the variants off writer.go with go/ast (`Gozod.Gen.writerFacts`),
+  now as an EXPECTATION: `C13.c13_writer_pinned : Gen.writerFacts = .head`.
 
   Strings are lists of code points; `none` = outside the modelled fragment (gozodgen refuses the tag,
   `strconv.Quote` of a rune whose quoting is not modelled, a JSON `default=` on a slice / map field).
@@ -100,10 +102,13 @@ structure WriterFacts where
   jsonNumKinds : Bool          -- generateSliceValue: a slice literal for every integer / float element kind
   deriving DecidableEq, Repr
 
-/-- the writer of round 4 (/repo 65a0069 … cef00ff) -/
+/-- the writer of round 4 (/repo 65a0069 … cef00ff): LEGACY — survives in witness theorems only -/
 def WriterFacts.legacy : WriterFacts := ⟨true, true, true, false, false, false, false, false, false, false, false, false⟩
-/-- the writer with every pending C13 patch applied -/
-def WriterFacts.repaired : WriterFacts := ⟨false, false, false, true, true, true, true, true, true, true, true, true⟩
+/-- THE WRITER OF /repo HEAD — every one of the twelve decisions in the variant that landed (d18b0f8, f000f64, b3b31f0,
+    5150498, dc7638b, 8d449bc, 04764f2, b4218fe, eb477b9, cf94592, 2cfb151, 0a09f8c). Round 4c: the model, the driver and
+    every theorem are PINNED to this value; `Gozod.Gen.writerFacts` (what go/ast finds in the tree) must equal it
+    (`C13.c13_writer_pinned`) — a tree that shows a legacy variant again is a broken obligation, not an accepted alternative. -/
+def WriterFacts.head : WriterFacts := ⟨false, false, false, true, true, true, true, true, true, true, true, true⟩
 
 /-! ### the structure of an emitted expression -/
 
@@ -537,6 +542,36 @@ def emitField (W : WriterFacts) (t : Ty) (sn : Str) (tag : Str) : Option Str :=
   match genParseTag tag with
   | .ok rs => emitRules W t sn rs
   | .error _ => none
+
+/-! ### the syntax of field types (`getTypeNameFromAST`), read back -/
+
+def isIdent (cs : List Char) : Bool :=
+  match cs with
+  | [] => false
+  | c :: _ => (c.isAlpha || c == '_') && cs.all fun d => d.isAlphanum || d == '_'
+
+/-- the field type as written in the source (`*T`, `[]T`, `map[K]V` with a bracket-free key, basic names, `time.Time`,
+    identifiers); `Ty.typeName (parseTy s) = s` on what it accepts -/
+def parseTyF : Nat → List Char → Option Ty
+  | 0, _ => none
+  | f + 1, cs =>
+    match cs with
+    | '*' :: r => (parseTyF f r).map .ptr
+    | '[' :: ']' :: r => (parseTyF f r).map .slice
+    | 'm' :: 'a' :: 'p' :: '[' :: r =>
+      let k := r.takeWhile (· != ']')
+      let v := (r.dropWhile (· != ']')).drop 1
+      match parseTyF f k, parseTyF f v with
+      | some k, some v => some (.map k v)
+      | _, _ => none
+    | _ =>
+      let s := String.ofList cs
+      if s == "time.Time" then some .time
+      else match Basic.all.find? (·.name == s) with
+        | some b => some (.basic b)
+        | none => if isIdent cs then some (.named (asc s)) else none
+
+def parseTy (s : String) : Option Ty := parseTyF (s.length + 1) s.toList
 
 /-! ### `generateImports` -/
 
